@@ -356,6 +356,15 @@ theorem initLoop_reach (byHeight : Nat → Option Block) (stableTime : Nat)
       | hang => rw [hs] at h; cases h
     · cases h; exact ⟨U, hr, hU⟩
 
+/-- so the guard after a restart is a reachable guard with nothing killed and stable time `stable.time`:
+    `restart_equiv`, `guard_refines_ancestors`, `at_most_once_by_id` apply to it and to everything that
+    follows it -/
+theorem initTxPool_reach (byHeight : Nat → Option Block) (stable : Block)
+    (hfun : ∀ h1 h2 b1 b2, byHeight h1 = some b1 → byHeight h2 = some b2 → b1.hash = b2.hash → b1 = b2)
+    (hst : byHeight stable.height = some stable) {g : Guard} (h : initTxPool byHeight stable = .ok g) :
+    ∃ U, Reach g U [] stable.time ∧ ∀ x ∈ U, ∃ h, byHeight h = some x :=
+  initLoop_reach byHeight stable.time hfun _ _ _ _ [] _ _ (Reach.init _) hst (fun x hx => by cases hx) h
+
 /-! ## at_most_once_by_content: partial theorem -/
 
 theorem nodup_map_of_inj {α β γ : Type} (f : α → β) (k : α → γ) :
